@@ -94,6 +94,13 @@ func genTokenBody(t *rapid.T) []byte {
 		}
 		return rapid.StringMatching(`[A-Za-z0-9+/]{4,40}={0,2}`).Draw(t, label)
 	}
+	// A call token is stamped on or before the batch carrying the first
+	// cursor (any earlier batch or stream: a header stream, an earlier turn),
+	// or anywhere when the body has no cursor. One stamped only after the
+	// first cursor is outside the finders' contract (they stop at the cursor)
+	// and is generated only when an earlier one exists, so that first-token
+	// semantics decide either way.
+	cursorPlaced, callPlaced := false, false
 	for s := 0; s < nStreams; s++ {
 		schema := lib.GenSchema(t, 0, 3, 1, lib.TypeOpts{})
 		nb := rapid.IntRange(0, 3).Draw(t, "nb")
@@ -106,18 +113,24 @@ func genTokenBody(t *rapid.T) []byte {
 			b := lib.GenBatch(t, schema, rows)
 			m := lib.GenMeta(t, false)
 			keys, vals := append([]string{}, m.Keys()...), append([]string{}, m.Values()...)
+			wasPlaced := cursorPlaced
 			hasCursor := anyCursor && rapid.IntRange(0, 2).Draw(t, "cursor?") == 0
-			cursorVal := ""
 			if hasCursor {
-				cursorVal = tok("cursor")
+				cursorVal := tok("cursor")
 				keys = append(keys, lib.KStreamState)
 				vals = append(vals, cursorVal)
+				if cursorVal != "" {
+					cursorPlaced = true
+				}
 			}
-			// an empty value is "not stamped", so it does not license a call token
-			if (cursorVal != "" || !anyCursor) && rapid.IntRange(0, 2).Draw(t, "call?") == 0 {
+			if (!wasPlaced || callPlaced) && rapid.IntRange(0, 2).Draw(t, "call?") == 0 {
 				pos := rapid.IntRange(0, len(keys)).Draw(t, "callpos")
+				callVal := tok("call")
 				keys = append(keys[:pos], append([]string{lib.KCallState}, keys[pos:]...)...)
-				vals = append(vals[:pos], append([]string{tok("call")}, vals[pos:]...)...)
+				vals = append(vals[:pos], append([]string{callVal}, vals[pos:]...)...)
+				if callVal != "" {
+					callPlaced = true
+				}
 			}
 			if len(keys) > 0 {
 				b = lib.WithMeta(b, keys, vals)
@@ -388,31 +401,30 @@ func runC01(c c01Case) (out lib.Outcome) {
 			return
 		}
 		// independent walker: first non-empty cursor in document order; the
-		// call token is the one co-located with it, or, when the body has no
-		// cursor at all, the first non-empty call token.
+		// call token is the first non-empty one stamped up to and including
+		// that batch, or, when the body has no cursor at all, the first
+		// non-empty call token anywhere.
 		wantState, wantCall := "", ""
 		nCursor := 0
+		callBeforeCursor := false
 	walk:
 		for _, st := range streams {
 			for _, b := range st.Batches {
+				if v := firstNonEmpty(b, lib.KCallState); v != "" && wantCall == "" {
+					wantCall = v
+					if firstNonEmpty(b, lib.KStreamState) == "" {
+						callBeforeCursor = true
+					}
+				}
 				if v := firstNonEmpty(b, lib.KStreamState); v != "" {
 					nCursor++
 					wantState = v
-					wantCall = firstNonEmpty(b, lib.KCallState)
 					break walk
 				}
 			}
 		}
-		if wantState == "" {
-		walk2:
-			for _, st := range streams {
-				for _, b := range st.Batches {
-					if v := firstNonEmpty(b, lib.KCallState); v != "" {
-						wantCall = v
-						break walk2
-					}
-				}
-			}
+		if wantState != "" && wantCall != "" && callBeforeCursor {
+			out.Label("call-token-before-cursor-batch")
 		}
 		var gs, gc, gs1, gc1 []byte
 		if p := guard(func() {
@@ -614,7 +626,7 @@ var propC01 = lib.Prop[c01Case]{
 		"non-empty result; any not-a-result body; a mutated body that still opens as IPC.",
 	Gen:          genC01,
 	Run:          runC01,
-	Essential:    []string{"mode:request", "mode:tokens", "mode:result", "mode:notresult", "mode:garbage", "garbage-still-ipc", "nested", "cursor-present"},
+	Essential:    []string{"mode:request", "mode:tokens", "mode:result", "mode:notresult", "mode:garbage", "garbage-still-ipc", "nested", "cursor-present", "call-token-before-cursor-batch"},
 	EssentialMin: 300,
 	Assumptions: []string{"arrow-go's IPC reader/writer (used by my independent decoder) is trusted",
 		"method names outside valid UTF-8 are outside the property's domain"},
